@@ -37,15 +37,25 @@ func (m *Machine) syncMapFind(st *syncMapState, key Value) int {
 	return -1
 }
 
+// regSP registers an intercept whose call is a scheduling point (the scheduler may switch before it).
+func regSP(name string, f func(m *Machine, g *Goroutine, a []Value) Value) {
+	reg(name, func(m *Machine, g *Goroutine, c *callCtx) (Value, stepStatus) {
+		if m.maybePreempt(g) {
+			return nil, stBlocked
+		}
+		return f(m, g, c.args), stNext
+	})
+}
+
 func init() {
-	regV("(*sync.Map).Load", func(m *Machine, g *Goroutine, a []Value) Value {
+	regSP("(*sync.Map).Load", func(m *Machine, g *Goroutine, a []Value) Value {
 		st := m.syncMapOf(a[0], "Load")
 		if i := m.syncMapFind(st, a[1]); i >= 0 {
 			return TupleVal{st.vals[i], tTrue}
 		}
 		return TupleVal{IfaceVal{}, tFalse}
 	})
-	regV("(*sync.Map).Store", func(m *Machine, g *Goroutine, a []Value) Value {
+	regSP("(*sync.Map).Store", func(m *Machine, g *Goroutine, a []Value) Value {
 		st := m.syncMapOf(a[0], "Store")
 		if i := m.syncMapFind(st, a[1]); i >= 0 {
 			st.vals[i] = a[2]
@@ -54,7 +64,7 @@ func init() {
 		st.keys, st.vals = append(st.keys, a[1]), append(st.vals, a[2])
 		return nil
 	})
-	regV("(*sync.Map).LoadOrStore", func(m *Machine, g *Goroutine, a []Value) Value {
+	regSP("(*sync.Map).LoadOrStore", func(m *Machine, g *Goroutine, a []Value) Value {
 		st := m.syncMapOf(a[0], "LoadOrStore")
 		if i := m.syncMapFind(st, a[1]); i >= 0 {
 			return TupleVal{st.vals[i], tTrue}
@@ -72,11 +82,11 @@ func init() {
 		st.vals = append(append([]Value{}, st.vals[:i]...), st.vals[i+1:]...)
 		return v, true
 	}
-	regV("(*sync.Map).Delete", func(m *Machine, g *Goroutine, a []Value) Value {
+	regSP("(*sync.Map).Delete", func(m *Machine, g *Goroutine, a []Value) Value {
 		del(m, m.syncMapOf(a[0], "Delete"), a[1])
 		return nil
 	})
-	regV("(*sync.Map).LoadAndDelete", func(m *Machine, g *Goroutine, a []Value) Value {
+	regSP("(*sync.Map).LoadAndDelete", func(m *Machine, g *Goroutine, a []Value) Value {
 		v, ok := del(m, m.syncMapOf(a[0], "LoadAndDelete"), a[1])
 		return TupleVal{v, mkBool(ok)}
 	})
